@@ -1,6 +1,7 @@
 package ssax
 
 import (
+	"fmt"
 	"go/token"
 	"go/types"
 	"sort"
@@ -353,4 +354,110 @@ func Cone(entries []*ssa.Function, resolve func(Call) []*ssa.Function, followGo 
 		walk(e)
 	}
 	return order
+}
+
+// LockLeak describes a lock that may still be held when a function returns.
+type LockLeak struct {
+	Key    string
+	Return *ssa.Return
+	Path   []*ssa.BasicBlock
+}
+
+// LeakedLocks runs a may-hold analysis (union at joins) and reports every
+// lock acquired in fn that can still be held at a normal return and is not
+// released by a deferred unlock executed on that path. A function whose
+// every path ends with the lock held (a deliberate "lock and return" helper)
+// is reported too — callers whitelist such helpers by name.
+func LeakedLocks(fn *ssa.Function) []LockLeak {
+	type state struct {
+		held     map[string]bool
+		deferred map[string]bool
+	}
+	clone := func(s state) state {
+		n := state{map[string]bool{}, map[string]bool{}}
+		for k := range s.held {
+			n.held[k] = true
+		}
+		for k := range s.deferred {
+			n.deferred[k] = true
+		}
+		return n
+	}
+	// path-sensitive enough: explore per-block states as sets of (held,deferred) with a bound
+	type key struct {
+		b *ssa.BasicBlock
+		s string
+	}
+	enc := func(s state) string {
+		var ks []string
+		for k := range s.held {
+			ks = append(ks, "h:"+k)
+		}
+		for k := range s.deferred {
+			ks = append(ks, "d:"+k)
+		}
+		sort.Strings(ks)
+		return strings.Join(ks, ",")
+	}
+	var leaks []LockLeak
+	seenLeak := map[string]bool{}
+	seen := map[key]bool{}
+	type item struct {
+		b    *ssa.BasicBlock
+		s    state
+		path []*ssa.BasicBlock
+	}
+	if len(fn.Blocks) == 0 {
+		return nil
+	}
+	work := []item{{fn.Blocks[0], state{map[string]bool{}, map[string]bool{}}, nil}}
+	for steps := 0; len(work) > 0 && steps < 20000; steps++ {
+		it := work[len(work)-1]
+		work = work[:len(work)-1]
+		k := key{it.b, enc(it.s)}
+		if seen[k] {
+			continue
+		}
+		seen[k] = true
+		s := clone(it.s)
+		path := append(append([]*ssa.BasicBlock{}, it.path...), it.b)
+		for _, in := range it.b.Instrs {
+			if c, ok := AsCall(in); ok {
+				lk, op := LockOp(c)
+				if op != "" {
+					if _, isDefer := in.(*ssa.Defer); isDefer {
+						if op == "Unlock" || op == "RUnlock" {
+							s.deferred[lk] = true
+						}
+						continue
+					}
+					if _, isGo := in.(*ssa.Go); isGo {
+						continue
+					}
+					switch op {
+					case "Lock", "RLock":
+						s.held[lk] = true
+					case "Unlock", "RUnlock":
+						delete(s.held, lk)
+					}
+				}
+			}
+			if r, ok := in.(*ssa.Return); ok && it.b.Comment != "recover" {
+				for lk := range s.held {
+					if s.deferred[lk] {
+						continue
+					}
+					id := lk + "@" + fmt.Sprint(it.b.Index)
+					if !seenLeak[id] {
+						seenLeak[id] = true
+						leaks = append(leaks, LockLeak{lk, r, path})
+					}
+				}
+			}
+		}
+		for _, succ := range it.b.Succs {
+			work = append(work, item{succ, s, path})
+		}
+	}
+	return leaks
 }
